@@ -1,8 +1,14 @@
 (* gofakes3.go handlers over a backend model: the decisions each handler takes before and
    after calling the Backend (ensureBucketExists / auto-bucket, name validation, key length,
    versioned-backend tests, copy = head + get + put, paging fallback). *)
-From GF Require Export Base.Bytes Model.Mem Model.BucketName.
+From GF Require Export Base.Bytes Base.Lit Model.Mem Model.BucketName.
 Open Scope Z_scope.
+
+(* copyObject: the metadata headers of the copy request win, the source's fill in the rest;
+   the ACL is not carried over *)
+Definition meta_has (k : list N) (m : meta) : bool := existsb (fun kv => beq k (fst kv)) m.
+Definition merge_meta (req src : meta) : meta :=
+  req ++ filter (fun kv => negb (meta_has (fst kv) req) && negb (beq (fst kv) (B "X-Amz-Acl"))) src.
 
 Record config := {
   cfg_auto_bucket : bool;        (* WithAutoBucket *)
@@ -22,7 +28,7 @@ Inductive op :=
 | ODelete (b k : list N)
 | ODeleteVersion (b k : list N) (vid : N)
 | OMultiDelete (b : list N) (ks : list (list N * option N))
-| OCopy (sb sk b k : list N)
+| OCopy (sb sk b k : list N) (m : meta)
 | OSetVersioning (b : list N) (enable : bool)
 | OList (b pre : list N) (delim : option N) (marker : list N) (has_marker : bool) (maxkeys : Z).
 
@@ -45,9 +51,6 @@ Definition ensure_bucket (c : config) (s : state) (b : list N) : state * option 
   | Some _ => (s, None)
   | None => if cfg_auto_bucket c then (fst (Mem.create_bucket s b), None) else (s, Some ENoSuchBucket)
   end.
-
-Definition merge_meta (req src : meta) : meta :=
-  req ++ filter (fun kv => negb (existsb (fun kv' => beq (fst kv) (fst kv')) req)) src.
 
 Definition step (c : config) (s : state) (o : op) : state * resp :=
   match o with
@@ -140,14 +143,14 @@ Definition step (c : config) (s : state) (o : op) : state * resp :=
           let ks' := if cfg_versioned c then ks else map (fun kv => (fst kv, None)) ks in
           (delete_multi s1 b ks', RMulti (map fst ks))
       end
-  | OCopy sb sk b k =>
+  | OCopy sb sk b k m =>
       match ensure_bucket c s b with
       | (s1, Some e) => (s1, RErr e)
       | (s1, None) =>
           match get_object s1 sb sk with
           | OErr e => (s1, RErr e)
           | OObj v _ =>
-              match put_object s1 b k (vd_body v) (vd_meta v) with
+              match put_object s1 b k (vd_body v) (merge_meta m (vd_meta v)) with
               | (s2, (None, _)) => (s2, RCopy (vd_body v))
               | (s2, (Some e, _)) => (s2, RErr e)
               end
